@@ -39,7 +39,7 @@ def cases(tier, seed, args):
         if kind == 'gmm':
             sc['opts'] = dict(covariance_type=['full', 'diagonal', 'spherical'][(i // 2) % 3])
             if sc['offset'] >= 1e7:
-                sc.update(iterations=40, K=3, D=2, N=120, L=[])
+                sc.update(iterations=40, K=3, D=2, N=120, L=[], wca=[(-1,), -2][i % 2], wca_type=['tuple', 'int'][i % 2])
         if kind == 'gcacgmm':
             sc['opts'] = dict(spatial_weight=1.0, spectral_weight=1.0, covariance_type=['spherical', 'diagonal', 'full'][i % 3],
                               affiliation_eps=0.0)
